@@ -14,7 +14,7 @@ def one(name):
     prop, k = name.split("-")
     meta = json.load(open(os.path.join(ROOT, "benign", name, "meta.json")))
     cs = sorted({c.split("/")[0] for c in meta.get("checks", {})}) or [prop]
-    p = subprocess.run([sys.executable, os.path.join(ROOT, "tools/eval_benign.py"), prop, k, "--noconfirm", "--checks", ",".join(cs)],
+    p = subprocess.run([sys.executable, os.path.join(ROOT, "tools/eval_benign.py"), prop, k, "--as", name, "--noconfirm", "--checks", ",".join(cs)],
                        capture_output=True, text=True, cwd=ROOT)
     rcs = [l.split("rc=")[1][:1] for l in p.stdout.splitlines() if l.startswith("check ") and "rc=" in l]
     bad = not rcs or any(x != "0" for x in rcs)
